@@ -36,6 +36,10 @@ CLAIMED = {
          "Structural necessary conditions decided on the engine's source: activation accounting balanced (activated=true only with the per-priority count, decrement only under IsActivated), the executed slice is the sorted SSA value and Less is 'Priority <' in index order, "
          "tasks are queued with their own monitor's priority and the dequeue returns the heap's Pop, the rule loop leaves under failOnFirstError ∧ errors≠∅ after the action ran and its error was recorded. "
          "The heap order of krotik/common and schedules are not explored.", "3/C10"),
+ "C01": ("read-set vs key-field analysis of the trigger memo (effects over CHA), reset/mutation pairing, dominating-bound facts for shift counts, sibling cross-check of pre-check vs match (guard relation sets, descent field sets)",
+         "Structural necessary conditions of 'never skipped, whatever events came before' and 'any number of state rules': the memoised pre-check reads only fields the memo key is derived from; every index mutation resets the memo; "
+         "every rule-count dependent shift is bounded below the mask width by a dominating condition; for each of the three index implementations the pre-check's negative guard implies the match's and the match descends only where the pre-check does. "
+         "Which rules match which event (runtime values), suppression/scope values and duplicate firing through overlapping kind patterns are not decided.", "3/C01"),
 }
 
 NOT_YET = "check not built yet in this session (see DESIGN.md section 3 for the planned static rule)"
